@@ -90,6 +90,7 @@ fn main() {
     let known = load_known(&verif_dir);
     let code = dispatch!(id.as_str(), &ctx, &known, replay.as_deref(),
         "C03" => c03,
+        "C04" => c04,
         "C05" => c05,
         "C06" => c06,
         "C08" => c08,
